@@ -237,23 +237,34 @@ def random_binding(ctx):
 
 
 def deep_nesting(ctx):
-    """Totality at depth: a process-level crash (stack overflow) of the real parser / formatter / printer is
-    data as well.  The harness is run as a child per depth; a death by signal is the observation."""
+    """Totality on deep and on long inputs: a process-level crash (stack overflow) of the real parser /
+    formatter / printer is data as well.  The harness runs as a child per input; death by signal is the
+    observation."""
     depths = [200, 2000] if ctx.quick else [200, 2000, 20000, 100000]
     res = {}
+
+    def child(name, key, desc, args):
+        p = vh(["c18-deep"] + args, check=False, timeout=600)
+        died = p.returncode < 0 or p.returncode in (134, 139)
+        res[name] = "crashed" if died else "returned"
+        if died:
+            ctx.judge(key, f"{desc} killed the process (rc={p.returncode}): {p.stderr.decode(errors='replace')[-200:]}",
+                      {"part": "BoxLang.deep_nesting", "key": key, "args": args, "rc": p.returncode})
+        elif p.returncode != 0:
+            raise ToolError(f"c18-deep failed rc={p.returncode}: {p.stderr.decode(errors='replace')[-500:]}")
+        return died
+
     for what in ("parse", "format", "print"):
         for d in depths:
-            p = vh(["c18-deep", f"depth={d}", f"what={what}"], check=False, timeout=600)
-            died = p.returncode < 0 or p.returncode in (134, 139)
-            res[f"{what}@{d}"] = "crashed" if died else "returned"
-            if died:
-                key = "stack_overflow_on_deep_nesting"
-                desc = (f"{what} of {d} nested hbox(content=[vbox(content=[...]])) calls killed the process "
-                        f"(rc={p.returncode}): {p.stderr.decode(errors='replace')[-200:]}")
-                ctx.judge(key, desc, {"part": "BoxLang.deep_nesting", "depth": d, "what": what, "rc": p.returncode})
+            if child(f"{what}@depth{d}", "stack_overflow_on_deep_nesting",
+                     f"{what} of {d} nested hbox(content=[vbox(content=[...]])) calls", [f"depth={d}", f"what={what}"]):
                 break
-            if p.returncode != 0:
-                raise ToolError(f"c18-deep failed rc={p.returncode}: {p.stderr.decode(errors='replace')[-500:]}")
+    # long, flat inputs: error recovery must not recurse per token
+    n = 100000 if ctx.quick else 1000000
+    for frag in ["$", "\u00e9 ", "chars ", ")", ",,", "\"\\a", "1.2.", "#c\n", "kern(1pt)", "f(a=,", "[", "chars(1,"]:
+        for what in ("parse", "format"):
+            child(f"{what}@{n}x{frag!r}", "stack_overflow_on_invalid_character_run",
+                  f"{what} of {n} copies of {frag!r}", [f"depth={n}", f"what={what}", f"repeat={frag}"])
     ctx.cov["parts"]["BoxLang.deep_nesting"] = res
     ctx.add_bound("BoxLang.deep_nesting", len(res), len(res))
 
@@ -322,13 +333,13 @@ def replay(path):
     try:
         build_harness()
         if r.get("part") == "BoxLang.deep_nesting":
-            p = vh(["c18-deep", f"depth={r['depth']}", f"what={r['what']}"], check=False, timeout=600)
-            print(f"c18-deep depth={r['depth']} what={r['what']}: rc={p.returncode}")
+            p = vh(["c18-deep"] + r["args"], check=False, timeout=600)
+            print(f"c18-deep {r['args']}: rc={p.returncode}")
             if p.returncode == 0:
                 print("returned normally")
                 return 0
-            if ctx.finding_for("stack_overflow_on_deep_nesting"):
-                print("KNOWN-FINDING: stack_overflow_on_deep_nesting")
+            if ctx.finding_for(r["key"]):
+                print("KNOWN-FINDING:", r["key"])
                 return 0
             print(f"VIOLATION property=C18 replay={path}")
             return 1
